@@ -759,6 +759,13 @@ class YAMLPath:
 
             elif char == "]":
                 # Track bracket de-nesting
+                if demarc_count < 1:
+                    raise YAMLPathException((
+                        "Unmatched closing bracket at character index {},"
+                        " \"{}\"")
+                        .format(char_idx, char)
+                        , yaml_path
+                    )
                 demarc_stack.pop()
                 demarc_count -= 1
 
